@@ -221,7 +221,9 @@ class Ob:
             self.meta['strs'] = dict(STR.rev)
         if self.must == 'valid':
             fz['relaxed'] = self.smt2_relaxed()
-            if self.kind in ('INV', 'PRE', 'POST', 'VAR') and self.goal is not None:
+            # (the cone-of-influence tier pays off in the rule bodies, whose path conditions run to hundreds of premises; for the
+            # small arithmetic functions it only delays the full query)
+            if self.kind in ('INV', 'PRE', 'POST', 'VAR') and self.goal is not None and '.count' in (self.func or ''):
                 try:
                     fz['sliced'] = self.smt2_sliced()
                 except Exception:
